@@ -311,6 +311,34 @@ def scen_loop_under_a_controlled_clock(kind):
             return f"timed actions on the event loop under a controlled clock: the loop spins at clock {clock[0]} (after {started})"
         if started != [("soon", round(tiny, 6)), ("later", 0.5)]:
             return f"an action due {tiny} s ahead started at {started} on the scheduler's clock, expected soon@{tiny}, later@0.5"
+    # many timers submitted in no particular order, some cancelled before they are due (the earliest one too), an immediate action in between that
+    # makes the loop go round once more: whatever the loop does with cancelled entries, the others start in due-time order, each at its due time
+    import itertools as _it
+    for order in ([1, 5, 2, 6, 7, 3, 4], [7, 6, 5, 4, 3, 2, 1], [4, 1, 6, 2, 7, 3, 5]):
+        for cancelled in ((1,), (1, 2), (4,), (7, 1)):
+            clock[0] = 0.0
+            s = Controlled(thread_factory=lambda target: NoThread())
+            s._condition = FakeCondition()
+            del started[:]
+            handles = {d: s.schedule_relative(float(d), mk(d, 0.0)) for d in order}
+
+            def cancel_some(sc, st=None, _h=handles, _c=cancelled):
+                for d in _c:
+                    _h[d].dispose()
+                sc.schedule(lambda *_: None)  # one more round of the loop before anything is due
+            s.schedule(cancel_some)
+            reads[0] = 0
+            try:
+                s.run()
+            except Stop:
+                pass
+            except Spin:
+                return f"timers {order} with {cancelled} cancelled: the loop spins at clock {clock[0]} (after {started})"
+            want = [(d, float(d)) for d in sorted(order) if d not in cancelled]
+            if started != want:
+                return (f"timers due at {order} (submitted in that order), those due at {cancelled} cancelled before they were due: the others started "
+                        f"(which, at clock) {started}, expected {want}")
+    _ = _it
     return None
 
 
